@@ -510,7 +510,9 @@ class Replay:
         if "#" in name:
             a, i = name.rsplit("#", 1)
             act = self.acts.get((a, int(i)))
-            if act is not None and act.kind == "comm":
+            # a completion has a finish date; the record of a communication that is being failed (e.g. by the kill of a victim, printed before
+            # the onoff record of its host) has none
+            if act is not None and act.kind == "comm" and T(l.get("finish", "-0x1p+0")) >= 0:
                 self.note_end(act, T(l["t"]))
 
     def on_s(self, l):
